@@ -1064,6 +1064,7 @@ impl Property for C09 {
             nontrivial = st.fanout2 > 0 || st.overflow_loss_observed > 0;
             rep.probes.add("owed_datagram_socket_pairs", st.owed_pairs);
             rep.probes.add("receives_judged", st.allowed_receives);
+            rep.probes.add("owed_short_datagram_socket_pairs", st.short_owed_pairs);
             rep.probes.add("receives_too_short_for_id_matched", st.ambiguous_receives);
             rep.probes.add("fanout_to_2plus_sockets", st.fanout2);
             rep.probes.add("overflow_loss_observed", st.overflow_loss_observed);
